@@ -163,7 +163,7 @@ def gen_budget_struct(r, name, budget, enums, enum_w, structs, struct_w, fidx, f
 
 
 def gen_can_schema(r, prefix="C", max_bindings=6, flat=False, buses=True, big_endian=True, mux=True,
-                   devices=False, floats=True, enum_maxes=None, second_bindings=False):
+                   devices=False, floats=True, enum_maxes=None, second_bindings=False, bitstart=False):
     """CAN schema with every bound struct <= 64 bits.  Returns decls."""
     from . import schema as S
     from ..ref import layout as RL
@@ -229,6 +229,15 @@ def gen_can_schema(r, prefix="C", max_bindings=6, flat=False, buses=True, big_en
                     cnt = r.randint(1, min(16, 1 << m["type"][1]))
                     items.append(("signal", f["name"], [("mux_count", cnt), ("mux_signal", ("s", m["name"]))]))
                     used.add(f["name"])
+        if bitstart and r.random() < 0.3:
+            # the documented 'bitstart' key on a signal block (the layout is fixed by the field ids: the key
+            # moves nothing, neither on the wire nor in what describes the wire)
+            free = [f for f in scal if f["name"] not in used]
+            if free:
+                f = r.choice(free)
+                st, wd, t = lay[f["name"]]
+                items.append(("signal", f["name"], [("bitstart", r.choice([st, 0, 8, 16, 32, 40, 48, max(0, 64 - wd)]))]))
+                used.add(f["name"])
         rename = ("%sRen%d" % (prefix, i)) if r.random() < 0.3 else None
         r.shuffle(items)
         decls.append({"kind": "impl", "protocol": "can", "type": n, "name": rename, "items": items})
